@@ -12,5 +12,13 @@ theorem fact_average_Add : F1.Generated.skel_average_Add = F1.Expected.skel_aver
 theorem fact_average_Update : F1.Generated.skel_average_Update = F1.Expected.skel_average_Update := by rfl
 theorem fact_average_Snapshot : F1.Generated.skel_average_Snapshot = F1.Expected.skel_average_Snapshot := by rfl
 theorem fact_average_average : F1.Generated.skel_average_average = F1.Expected.skel_average_average := by rfl
+theorem fact_average_drain : F1.Generated.skel_average_drain = F1.Expected.skel_average_drain := by rfl
+theorem fact_average_CollectLifetime : F1.Generated.skel_average_CollectLifetime = F1.Expected.skel_average_CollectLifetime := by rfl
+theorem fact_average_Record : F1.Generated.skel_average_Record = F1.Expected.skel_average_Record := by rfl
+theorem fact_stats_Snapshot : F1.Generated.skel_stats_Snapshot = F1.Expected.skel_stats_Snapshot := by rfl
+theorem fact_stats_Total : F1.Generated.skel_stats_Total = F1.Expected.skel_stats_Total := by rfl
+theorem fact_stats_Record : F1.Generated.skel_stats_Record = F1.Expected.skel_stats_Record := by rfl
+theorem fact_t_Time : F1.Generated.skel_t_Time = F1.Expected.skel_t_Time := by rfl
+theorem fact_t_recordTime : F1.Generated.skel_t_recordTime = F1.Expected.skel_t_recordTime := by rfl
 
 end F1.Props.FactsC17
